@@ -193,7 +193,7 @@ theorem decodeCompressedUnchecked_badLength_iff (bs : Bytes) :
 /-! ### the curve-level ingredients -/
 
 theorem isOnCurve_iff (b : F) (A : Aff F) :
-    Aff.isOnCurve b A = true ↔ A.infinity = true ∨ A.y * A.y = A.x * A.x * A.x + b := Aff.isOnCurve_iff b A
+    Aff.isOnCurve b A = true ↔ A.infinity = true ∨ A.y * A.y = A.x * A.x * A.x + b := Aff.isOnCurve_iff_eq b A
 
 /-- `get_point_from_x`: returns `(x, y)` for the root `y` of `x³ + b` selected by `greatest`
 (`Selected g y`: `g → ¬ y < −y`, `¬g → ¬ −y < y`; for `y = 0 = −y` both hold and `(x, 0)` is returned
